@@ -241,6 +241,59 @@ def check_region_list(ctx, rep, f):
                     a = canon(ci["args"][0])
                     if a[0] == "call" and a[1] in ("begin", "cbegin") and a[2][0] == "var":
                         conts[a[2][1]] = a[2]
+    # a binary search that bounds the scan skips regions: the skipped ones must be disjoint from the cell for *every* cell and region
+    for x in walk(f.body):
+        if x.get("kind") != "CallExpr":
+            continue
+        ci = callee_info(x)
+        if not ci or ci["name"] not in ("lower_bound", "upper_bound") or len(ci["args"]) < 4:
+            continue
+        a0 = canon(ci["args"][0])
+        if not (a0[0] == "call" and a0[1] in ("begin", "cbegin") and a0[2][0] == "var" and (not conts or a0[2][1] in conts)):
+            continue
+        conts.setdefault(a0[2][1], a0[2])
+        V = _expand(ctx, f, canon(ci["args"][2]))
+        lam = strip(ci["args"][3], casts=True)
+        while lam.get("kind") in ("CXXConstructExpr", "MaterializeTemporaryExpr", "CXXBindTemporaryExpr") and children(lam):
+            lam = strip(children(lam)[0], casts=True)
+        lf = lam.get("_lam") if lam.get("kind") == "LambdaExpr" else None
+        rets = [r for r in walk(lf.body) if r.get("kind") == "ReturnStmt" and children(r)] if lf is not None and lf.body is not None else []
+        what = "%s bounds the scan of the congested regions (value %s)" % (ci["name"], pretty(V)[:40])
+
+        def bound_of(c):
+            """('min'|'max', axis) if c is a Rectangle bound member."""
+            if c[0] == "field" and c[1].split("::")[-1] in ("minX", "maxX", "minY", "maxY"):
+                n_ = c[1].split("::")[-1]
+                return n_[:3], n_[3]
+            return None
+        if lf is None or len(rets) != 1 or len(lf.params) != 2:
+            rep.unknown("RM", x, f, what, "comparator is not a two-parameter lambda with a single return")
+            continue
+        rc = canon(children(rets[0])[0])
+        pids = [p_.get("id") for p_ in lf.params]
+        if not (rc[0] == "bin" and rc[1] in ("<", "<=")):
+            rep.unknown("RM", x, f, what, "comparator is not a `<` comparison")
+            continue
+        sides = [rc[2], rc[3]]
+        keyside = [t for t in sides if bound_of(t) is not None]
+        vb = bound_of(V)
+        if len(keyside) != 1 or vb is None:
+            rep.unknown("RM", x, f, what, "search value / key are not rectangle bounds")
+            continue
+        kb = bound_of(keyside[0])
+        # upper_bound(value, comp(value, elem)) keeps [begin, it) and skips the elements with value < key;
+        # lower_bound(value, comp(elem, value)) skips the prefix of elements with key < value
+        if ci["name"] == "upper_bound":
+            sound = kb[0] == "min" and vb[0] == "max" and kb[1] == vb[1]
+            skipped = "regions whose %s%s lies beyond the cell's %s%s" % (kb[0], kb[1], vb[0], vb[1])
+        else:
+            sound = kb[0] == "max" and vb[0] == "min" and kb[1] == vb[1]
+            skipped = "regions whose %s%s lies before the cell's %s%s" % (kb[0], kb[1], vb[0], vb[1])
+        if sound:
+            rep.holds("RM", x, f, what, "skips only %s: they cannot intersect the cell" % skipped)
+        else:
+            rep.violation("RM", x, f, what, "skips %s, which can still intersect the cell (a region that starts inside the cell's span): the cell "
+                          "does not get the largest factor among the regions it intersects" % skipped, key="%s|region scan bounded by an unsound search" % f.short)
     if not conts:
         rep.unknown("RM", f.decl, f, "region scan", "no loop or search over a local region list that tests Rectangle::intersects was found")
         return
@@ -450,10 +503,40 @@ def _prove_defs(ctx, f, atom, bound, hyp, depth, trail):
         else:
             results.append((UNDECIDED, "initial elements of %s are not those of a parameter with a stated domain" % cont[2]))
         defs = _assign_nodes(f, lambda lc: lc[0] in ("elem", "index") and lc[1] == cont)
+        # `std::transform(v.begin(), v.end(), v.begin(), [..](T e) { return g(e); })` rewrites every element in place: e = g(e)
+        inplace = []
+        for x in walk(f.body):
+            if x.get("kind") != "CallExpr":
+                continue
+            ci = callee_info(x)
+            if not ci or ci["name"] != "transform" or len(ci["args"]) != 4:
+                continue
+            beg = ("call", "begin", cont)
+            if canon(ci["args"][0]) != beg or canon(ci["args"][2]) != beg or canon(ci["args"][1]) != ("call", "end", cont):
+                continue
+            lam = strip(ci["args"][3], casts=True)
+            while lam.get("kind") in ("CXXConstructExpr", "MaterializeTemporaryExpr", "CXXBindTemporaryExpr") and children(lam):
+                lam = strip(children(lam)[0], casts=True)
+            lf = lam.get("_lam") if lam.get("kind") == "LambdaExpr" else None
+            rets = [r for r in walk(lf.body) if r.get("kind") == "ReturnStmt" and children(r)] if lf is not None and lf.body is not None else []
+            if lf is None or len(lf.params) != 1 or len(rets) != 1:
+                continue
+            pv = ("var", lf.params[0].get("id"), lf.params[0].get("name"))
+            el = ("elem", cont)
+
+            def sub(c):
+                if c == pv:
+                    return el
+                if isinstance(c, tuple):
+                    return tuple(sub(y) if isinstance(y, tuple) else y for y in c)
+                return c
+            defs.append((x, el, "=", sub(canon(children(rets[0])[0]))))
+            inplace.append(x)
         # whole-container writes / escapes other than by-reference iteration are not understood
         for r in ctx.eff.var_refs(f, cont[1]):
             for u in ctx.eff.uses(r, ctx.eff.func_of_node(r) or f):
-                if u.kind != "read" and not any(x is u.node or any(y is u.node for y in walk(x)) for x, _l, _o, _r in defs):
+                if u.kind != "read" and not any(x is u.node or any(y is u.node for y in walk(x)) for x, _l, _o, _r in defs) and \
+                        not any(any(y is r for y in walk(t_)) for t_ in inplace):
                     p = u.node
                     if p.get("kind") in ("VarDecl", "CXXForRangeStmt", "DeclStmt"):
                         continue
@@ -472,7 +555,15 @@ def _prove_defs(ctx, f, atom, bound, hyp, depth, trail):
                 c = canon(ast)
                 if c[0] == "bin" and val is True and ((c[1] in (">", ">=") and c[2] == lc and c[3] == rc) or (c[1] in ("<", "<=") and c[3] == lc and c[2] == rc)):
                     clamp = True
-            if clamp and _loop_invariant(ctx, f, rc, x):
+            cap = rc
+            if rc[0] == "call" and rc[1] == "min" and len(rc) == 5 and lc in rc[3:]:
+                # `v = std::min(v, C)`: the same cap written with the standard algorithm
+                cap = rc[4] if rc[3] == lc else rc[3]
+                clamp = True
+            if clamp and _loop_invariant(ctx, f, cap, x):
+                results.append((PROVED, "%s = %s is a loop-invariant min-clamp: the width cap the property exempts" % (pretty(lc), pretty(rc))))
+                continue
+            if False:
                 results.append((PROVED, "%s = %s is a loop-invariant min-clamp: the width cap the property exempts" % (pretty(lc), pretty(rc))))
                 continue
             results.append(_prove_lb(ctx, f, rc, bound, x, h2 if h2[cur] is not None else hyp, depth + 1, trail))
@@ -502,6 +593,11 @@ def _as_fraction(c):
 
 def check_non_narrowing(ctx, rep, f):
     width = CQ + "Circuit::cellWidth_"
+    from .common import extremal_key_mismatches
+    for node, k1, k2 in extremal_key_mismatches(f):
+        rep.violation("NN", node, f, "%s() of the row that is extremal for %s" % (k2, k1),
+                      "this is not the extremal %s: the width cap derived from it can be far below the widest row, and the clamp then makes cells "
+                      "narrower although they are under the real cap" % k2, key="%s|cap from the wrong extremal row" % f.short)
     writes = _assign_nodes(f, lambda lc: lc[0] == "index" and lc[1][0] == "field" and lc[1][1] == width)
     if not writes:
         rep.unknown("NN", f.decl, f, "width write", "no element assignment to cellWidth_ found (shape changed)")
